@@ -23,6 +23,19 @@ def main():
     for it in items:
         del verif_sink.calls[:]
         try:
+            if it["mode"] == "builtin_arg":        # what builtins.exec / eval would receive (they are not run)
+                import io
+                import pickle
+
+                class U(pickle.Unpickler):
+                    def find_class(self, m, n):
+                        if m in ("builtins", "__builtin__") and n in ("exec", "eval"):
+                            return verif_sink.recv
+                        return super().find_class(m, n)
+                U(io.BytesIO(bytes.fromhex(it["hex"]))).load()
+                rec = [c for c in verif_sink.calls if c[0] == "recv"]
+                out.append({"id": it["id"], "ok": True, "got": [td(x) for x in rec[-1][1]] if rec else "no-call"})
+                continue
             r = _pickle.loads(bytes.fromhex(it["hex"]))
             if it["mode"] == "result":
                 got = td(r)
